@@ -686,7 +686,8 @@ def generate_ofm_scaling_for_pooling(emit: CommandStreamEmitter, pool_op: NpuPoo
     ofm_quant = pool_op.ofm.quantization
     if pool_op.activation is not None and pool_op.activation.op_type in (NpuActivationOp.SIGMOID, NpuActivationOp.TANH):
         assert ifm_quant.scale_f32 is not None
-        rescale = 0x3000 * ifm_quant.scale_f32
+        # (the scale is widened: a float32 factor would leave the 31-bit pooling scale below with 24 significant bits)
+        rescale = 0x3000 * np.double(ifm_quant.scale_f32)
         if pool_op.ifm.data_type == NpuDataType.INT16:
             # Calculate scale and shift for the output scale of 1/(3*4096)
             x_log2 = math.log2(ifm_quant.scale_f32)
@@ -737,7 +738,8 @@ def generate_ofm_scaling_for_pooling(emit: CommandStreamEmitter, pool_op: NpuPoo
         # Normally the scale is maximised, to get maximum precision, which means that
         # if rescale != 1, scale need to consider the number of bits needed for rescaling
         if ofm_quant.scale_f32 is not None and ifm_quant.scale_f32 is not None:
-            rescale = ifm_quant.scale_f32 / ofm_quant.scale_f32
+            # (computed in double: a float32 factor would leave the 31-bit pooling scale with 24 significant bits)
+            rescale = np.double(ifm_quant.scale_f32) / np.double(ofm_quant.scale_f32)
             rescale_bits = 0
             if rescale > 1:
                 # the scaled value must still fit the 32-bit scale register
